@@ -311,8 +311,9 @@ namespace Pistache
 
         Entry* pop() override
         {
-            auto ret = Queue<T>::pop();
-
+            // Drain the notification before looking at the queue: an item pushed
+            // after an unsuccessful dequeue must leave the eventfd readable,
+            // otherwise the event loop goes to sleep with the item queued.
             if (isBound())
             {
                 uint64_t val;
@@ -331,7 +332,7 @@ namespace Pistache
                 }
             }
 
-            return ret;
+            return Queue<T>::pop();
         }
 
         Polling::Tag tag() const
